@@ -9,6 +9,46 @@ NOTES = ("Every check is decided by TLA+ specifications under spec/ checked with
 NOT_APPLICABLE = {}
 
 CHECKS = {
+    "C03": {
+        "text": "TLC checks PoolMT (pool values, unique handles and shared-handle removers as Arc holders of one Mutex<raw pool>; every pool method one "
+                "action at its lock acquisition; Arc decrement, removal and Arc release of a drop as separate steps) for all interleavings of 3 threads "
+                "x 2 operations from every initial distribution of handles and pool values: destroyed at most once, never while a handle exists, not "
+                "later than the last drop, storage alive while any handle exists, len under the lock = abstract pool. Free-running runs of 2..16 "
+                "threads on OpaquePool/PinnedPool/BlindPool with 2-3-slot slabs are linearized by hook H1's event callback (sequence number drawn "
+                "under the pool mutex) and validated record by record by the judge PoolMTAbs in TLC. Send/Sync: TLC explores every distribution of "
+                "handles, borrows, clones, moves and drops over two threads under Rust's Send/Sync rules for every handle type x payload shape x "
+                "payload class of a trait table measured by rustc, checking that a payload is shared only if Sync and crosses threads only if Send.",
+        "note": "Bounded: 3 threads x 2 ops x <=2 objects exhaustively; ~6e4 sampled operations in thorough. Trusted: TLC, rustc's trait solver (probe), "
+                "H1 callback placement, the `T: Send` bounds of the pools' insert signatures (read, not measured). Known S1 findings in known_findings.json.",
+        "technique": "TLA+ explorer + judge checked by TLC; rustc-measured constants; linearized trace validation by TLC",
+    },
+    "C04": {
+        "text": "TLC enumerates every callback program (guard discipline mutex/RefCell/&mut x object graph of <=2 (thorough 3) scripted objects x "
+                "destructor bodies return/panic/len/insert x trigger drop / insert_with / with_iter x closure script x bystander x handle kind, nesting "
+                "depth <=2) and interprets it with the code's step order and Rust's unwinding/abort rules; every program is replayed in its own child "
+                "process under a structural watchdog on every pool type of its discipline (all nine), with scripted destructors and closures; every "
+                "recorded event trace (outcomes returned/panicked/hung/aborted, len, iteration, capacity, drop-pool) is judged by PoolCallbacksAbs in "
+                "TLC and compared event by event with the explorer's prediction.",
+        "note": "Bounded: <=3 objects, depth 2, one slab (plus a full-slab placement in thorough). Explorer fidelity measured (drift 0). Trusted: TLC, the "
+                "panic hook / write(2) event log, hang = child asleep in futex(2) with unchanged CPU time after >=10 s. Design-level re-entrance findings "
+                "are known findings; 4 fixed.",
+        "technique": "TLA+ explorer + judge checked by TLC; all TLC-generated programs replayed in child processes; trace validation by TLC",
+    },
+    "C15": {
+        "text": "TLC checks an implementation-shaped explorer of future_deque_core.rs + waker_meta.rs (one action per scheduling point: deque operations, "
+                "every shimmed atomic of the waker metadata, the parent mutex critical section, the parent wake) composed with the deterministic judge "
+                "FutureDequeAbs (deque order; polled only if inserted or woken; a wake after Pending => the next deque poll polls that future and the "
+                "latest parent waker was woken, also across a parent change; exactly-once drops; metadata freed exactly when the last reference goes and "
+                "never touched afterwards) for every interleaving of the deque task and 2 remote threads, <=3 futures, plus termination under fairness; "
+                "waker_meta.rs is additionally model-checked through RC11 with the memory orderings extracted from the instrumented crate's step logs; "
+                "TLC-generated behaviours are replayed step by step on the real FutureDeque / LocalFutureDeque (drift measured) and seeded random/PCT "
+                "schedules are recorded; every run is judged by the same judge in TLC and its step log is replayed through the trace-level RC11 detector.",
+        "note": "Exhaustive bounds: <=3 futures x <=4-5 deque ops, <=2-3 polls per future, 2 remote threads x <=2 ops; larger instances by simulation and "
+                "random stimuli. Weak memory is decided on the RC11 fragment, not observed. Handing a Waker to another thread is assumed to synchronise. "
+                "Trusted: TLC, the tracer, the ordering-site classification in checks/c15.py, plurality's pool.",
+        "technique": "TLA+ judge + explorer checked by TLC; TLC-simulated behaviours replayed as scripts under a deterministic scheduler; trace validation by "
+                     "TLC; RC11 model with orderings measured from the code; trace-level RC11 replay",
+    },
     "C07": {
         "text": "OnceEventLocal.tla models the single-threaded event as a call stack: one action per access to the event (state get/set/replace, cell "
                 "reads/writes, release) in the order of core/local.rs, and at every waker clone / wake / drop the specification may push any "
